@@ -312,7 +312,7 @@ func pruneMonitor(c *hx.CaseRun) []hx.Failure {
 
 // pruneCases: histories of grow / prune / view with validator changes at random heights; K from {0, 1, 2, …, H, H+1, 2H, 1000}.
 func pruneCases(g *hx.Gen) {
-	n := g.Pick(40, 600)
+	n := g.Pick(120, 600)
 	for c := 0; c < n; c++ {
 		ops := []string{hx.CaseOp(), fmt.Sprintf("pchain seed=%d trie=%d", 1+g.Rng.Intn(1000), g.Rng.Intn(2))}
 		H := 0
